@@ -263,7 +263,12 @@ def store_target_class(t, sc):
         return "self-attribute:" + t.attr
     if c in ("fresh", "local-frame", "list", "delegate", "external", "scalar"):
         return "local"
-    if c in ("opcol", "alias", "operand-frame", "param", "shallow", "receiver"):
+    if c == "shallow":
+        # `a = operand.copy(); a[key] = value` / `a.attr = value`: DataFrame.copy() is a NEW dict holding the
+        # operand's column objects; a key or attribute assignment on it changes that new dict only (a write
+        # *through* one of its columns, `a[key][i] = v`, has base `a[key]` = opcol and stays "operand")
+        return "local"
+    if c in ("opcol", "alias", "operand-frame", "param", "receiver"):
         return "operand"
     return "unknown"
 
